@@ -735,7 +735,7 @@ def statement_table(fb):
     st = dict((n, i) for i, n in fb.variants("parser::parser::Statement"))
     fields = [x["name"] for x in fb.adt("interpreter::interpreter::Interpreter")["variants"][0]["fields"]]
     rows = []
-    for kind in ("definition", "syntax-definition"):
+    for kind in ("definition", "syntax-definition", "expression"):
         own_env, own_syntax, lib_env = Val("interpreter-env"), Val("interpreter-syntax-env"), Val("library-env")
         selfv = fresh_fields(fb)
         selfv[fields.index("env")] = own_env
@@ -746,6 +746,9 @@ def statement_table(fb):
             located = Enum(0, [body, some([4, 2])])
             located.name, located.adt = "Located", "error::Located"
             stmt = Enum(st["Definition"], [located])
+        elif kind == "expression":
+            # an expression statement (initialisation code of a library such as (set! step 5)): Expression = Located<ExpressionBody>
+            stmt = Enum(st["Expression"], [[Val("expression"), some([4, 2])]])
         else:
             body = ["my-macro", Val("transformer")]
             located = Enum(0, [body, some([4, 2])])
@@ -791,6 +794,25 @@ def rule_statement(ctx, rule):
         decided += 1
         writes = [e for e in d["events"] if e[0] == "write"]
         foreign = [e for e in writes if e[1] is not d["lib_env"]]
+        evals = [e for e in d["events"] if e[0] == "eval"]
+        # whatever is evaluated (the expression statement itself, the initialiser of a definition) is evaluated in the library's
+        # environment: it sees the library's imports and definitions and nothing of the importer
+        wrong_env = [e for e in evals if absint.deref(e[2]) is not d["lib_env"]]
+        if wrong_env:
+            ctx.inst(rule, key + "/environment", {"evaluated_in": [repr(absint.deref(e[2])) for e in evals]})
+            ctx.oblige(False)
+            ctx.report(rule, key + "/environment", "a %s in the body of a library is evaluated in %r, not in the library's own environment: "
+                       "the library's code sees (and assigns) the importing program's variables instead of its own" % (
+                           "statement that is an expression" if kind == "expression" else kind.replace("-", " "), absint.deref(wrong_env[0][2])), where_of(f))
+            continue
+        if kind == "expression":
+            good = not writes and len(evals) == 1
+            ctx.inst(rule, key, {"evaluated_in_library_env": True})
+            ctx.oblige(good)
+            if not good:
+                ctx.report(rule, key, "an expression statement in the body of a library is evaluated %d time(s) and writes %s" % (
+                    len(evals), [(repr(e[1]), e[2]) for e in writes]), where_of(f))
+            continue
         name = "x" if kind == "definition" else "my-macro"
         good = not foreign and [e[2] for e in writes] == [name]
         ctx.inst(rule, key, {"writes": [(repr(e[1]), e[2]) for e in writes]})
